@@ -111,6 +111,23 @@ def parse_strace(path, main):
     return ev
 
 
+def pristine_end(args):
+    """Continue the run from a pristine copy of checkpoint i (no stale temporary file around) to the end;
+    returns the content digest of the final file: the oracle for what a re-run after a kill must produce."""
+    cfg, refdir, base, i = args
+    from .h5walk import content_digest
+    d = os.path.join(base, 'pristine_%04d' % i)
+    os.makedirs(d, exist_ok=True)
+    shutil.copyfile(os.path.join(refdir, 'snap_%04d.h5' % i), os.path.join(d, 'ck.h5'))
+    cfgpath = os.path.join(d, 'cfg.json')
+    json.dump(cfg, open(cfgpath, 'w'))
+    rc = subprocess.run(child_cmd(cfgpath, d, 'resume'), cwd=common.VERIF, env=_env(),
+                        stdout=subprocess.PIPE, stderr=subprocess.STDOUT, text=True, timeout=900)
+    out = (i, content_digest(os.path.join(d, 'ck.h5')) if rc.returncode == 0 else 'resume-of-pristine-failed')
+    shutil.rmtree(d, ignore_errors=True)
+    return out
+
+
 def kill_points(events):
     """event number -> (syscall name, ordinal of that event among the events of the same syscall)."""
     cnt, out = {}, {}
@@ -142,7 +159,7 @@ def validate_io(events, scratch):
 
 def kill_at(args):
     """Run the child, kill it at the N-th traced system call, inspect what is left."""
-    cfg, base, n, snaps_digests, do_resume, sc, k = args
+    cfg, base, n, snaps_digests, do_resume, sc, k, pristine = args
     from .h5walk import content_digest
     d = os.path.join(base, 'kill_%05d' % n)
     os.makedirs(d, exist_ok=True)
@@ -202,9 +219,13 @@ def kill_at(args):
                     fin = content_digest(main)
                 except Exception as e:
                     fin = 'unreadable: %s' % e
-                if fin != snaps_digests[-1]:
+                # (the end state need not be that of the uninterrupted run: a kill between the last exploration
+                # update and the end-of-exploration write legitimately resumes with one more exploration batch)
+                which = snaps_digests.index(dg) + 1
+                if fin != pristine.get(which):
                     out['problem'] = 'resume-diverges'
-                    out['detail'] = ('after the kill (%d completed checkpoints) the re-run script finished in a state that '
-                                     'differs from the uninterrupted run' % j)
+                    out['detail'] = ('the file left by the kill equals checkpoint %d, but re-running the script on it (stale '
+                                     'temporary file present) ends in a different state than continuing from a pristine '
+                                     'copy of checkpoint %d' % (which, which))
     shutil.rmtree(d, ignore_errors=True)
     return out
